@@ -798,6 +798,79 @@ fn psi_knowledge() -> serde_json::Value {
     json!({"found": false, "routine": "psi_knowledge", "tried": tried})
 }
 
+// developer aid: per-party knowledge analysis of further compiled protocols
+fn protocol_knowledge() -> serde_json::Value {
+    use ciphercore_base::graphs::util::simple_context;
+    use ciphercore_base::mpc::mpc_compiler::IOStatus;
+    type B = Box<dyn Fn(&Graph, &[ciphercore_base::graphs::Node]) -> Result<ciphercore_base::graphs::Node>>;
+    let t = array_type(vec![4], INT32); let m = array_type(vec![2, 2], INT32);
+    let nt = named_tuple_type(vec![("k".to_owned(), array_type(vec![5, 8], BIT)), ("v".to_owned(), array_type(vec![5], INT32))]);
+    let cases: Vec<(&str, Vec<Type>, B)> = vec![
+        ("sort(table by k)", vec![nt.clone(), nt.clone()], Box::new(|_g, i| i[0].sort("k".to_owned()))),
+        ("matmul(a,b)", vec![m.clone(), m.clone()], Box::new(|_g, i| i[0].matmul(i[1].clone()))),
+        ("gemm(a,b,t,f)", vec![m.clone(), m.clone()], Box::new(|_g, i| i[0].gemm(i[1].clone(), true, false))),
+        ("dot(a,b)", vec![t.clone(), t.clone()], Box::new(|_g, i| i[0].dot(i[1].clone()))),
+        ("a2b(a)*a2b(b) -> b2a", vec![t.clone(), t.clone()], Box::new(|_g, i| i[0].a2b()?.multiply(i[1].a2b()?)?.b2a(INT32))),
+        ("truncate(a*b, 4)", vec![t.clone(), t.clone()], Box::new(|_g, i| i[0].multiply(i[1].clone())?.truncate(4))),
+        ("sum(a*b)+a[0]", vec![t.clone(), t.clone()], Box::new(|_g, i| i[0].multiply(i[1].clone())?.sum(vec![0])?.add(i[0].get(vec![0])?))),
+    ];
+    let mut tried = 0;
+    for (name, types, build) in cases {
+        for (o0, o1) in [(IOStatus::Party(0), IOStatus::Party(1)), (IOStatus::Party(2), IOStatus::Public), (IOStatus::Shared, IOStatus::Party(1))] {
+            for outs in [vec![], vec![1u64], vec![0u64, 2]] {
+                tried += 1;
+                let r = catch_unwind(AssertUnwindSafe(|| -> Result<Vec<String>> {
+                    let c = simple_context(|g| { let mut ins = vec![]; for t in &types { ins.push(g.input(t.clone())?); } build(g, &ins) })?;
+                    let owners = vec![o0.clone(), o1.clone()];
+                    let (_keep, g) = compile_simple(&c, owners.clone(), outs.iter().map(|p| IOStatus::Party(*p)).collect())?;
+                    party_sim::knowledge(&g, &owners, &outs)
+                }));
+                match r {
+                    Ok(Ok(v)) if v.is_empty() => {}
+                    Ok(Ok(v)) => return json!({"found": true, "routine": "protocol_knowledge", "property": "C02", "input": {"graph": name, "owners": format!("[{:?}, {:?}]", o0, o1), "output_parties": outs}, "observed": v.iter().take(6).collect::<Vec<_>>(), "n_problems": v.len()}),
+                    Ok(Err(e)) => return json!({"found": false, "routine": "protocol_knowledge", "graph": name, "error": e.to_string()}),
+                    Err(_) => return json!({"found": false, "routine": "protocol_knowledge", "graph": name, "error": "panic"}),
+                }
+            }
+        }
+    }
+    json!({"found": false, "routine": "protocol_knowledge", "tried": tried})
+}
+
+// C13: the human-readable JSON form of a typed value parses back to an equal typed value (negative and 128-bit numbers included)
+fn json_roundtrip(seed: u64) -> serde_json::Value {
+    use ciphercore_base::typed_value::TypedValue;
+    let mut rng = Rng(seed | 1);
+    let mut tried = 0u64;
+    for st in [BIT, UINT8, INT8, UINT16, INT16, UINT32, INT32, UINT64, INT64, UINT128, INT128] {
+        let bits = st.size_in_bits();
+        let mask: u128 = if bits == 128 { u128::MAX } else { (1u128 << bits) - 1 };
+        let mut vals: Vec<u128> = vec![0, 1, mask, mask - (mask >> 1), mask >> 1, mask.wrapping_sub(4), 5 & mask, (u128::MAX - 4) & mask, (u128::MAX << 63) & mask, (1u128 << 64) & mask, ((1u128 << 100) + 7) & mask];
+        for _ in 0..6 { vals.push((((rng.next() as u128) << 64) | rng.next() as u128) & mask); }
+        let vals: Vec<u128> = vals.into_iter().map(|v| v.wrapping_add(0) & mask).collect();
+        let mut tvs: Vec<TypedValue> = vec![];
+        for v in &vals { tvs.push(TypedValue::new(scalar_type(st), Value::from_flattened_array(&[*v], st).unwrap()).unwrap()); }
+        tvs.push(TypedValue::new(array_type(vec![vals.len() as u64], st), Value::from_flattened_array(&vals, st).unwrap()).unwrap());
+        let inner = tvs[3].clone(); let arr = tvs[tvs.len() - 1].clone();
+        tvs.push(TypedValue::new(tuple_type(vec![inner.t.clone(), arr.t.clone()]), Value::from_vector(vec![inner.value.clone(), arr.value.clone()])).unwrap());
+        for tv in tvs {
+            tried += 1;
+            let r = catch_unwind(AssertUnwindSafe(|| -> std::result::Result<(String, Option<String>), String> {
+                let s = serde_json::to_string(&tv).map_err(|e| e.to_string())?;
+                let back: TypedValue = serde_json::from_str(&s).map_err(|e| format!("parse error: {} on {}", e, s))?;
+                if back == tv { Ok((s, None)) } else { Ok((s.clone(), Some(serde_json::to_string(&back).unwrap_or_default()))) }
+            }));
+            match r {
+                Ok(Ok((_, None))) => {}
+                Ok(Ok((s, Some(b)))) => return json!({"found": true, "routine": "json_roundtrip", "property": "C13", "input": {"json": s}, "observed": {"parsed_back_as": b}, "expected": "an equal typed value", "what": "serde_json::to_string of a TypedValue, then from_str"}),
+                Ok(Err(e)) => return json!({"found": true, "routine": "json_roundtrip", "property": "C13", "input": {"scalar_type": format!("{}", st)}, "observed": e}),
+                Err(_) => return json!({"found": true, "routine": "json_roundtrip", "property": "C13", "input": {"scalar_type": format!("{}", st)}, "observed": "panic"}),
+            }
+        }
+    }
+    json!({"found": false, "routine": "json_roundtrip", "tried": tried})
+}
+
 // C14: per-party shares reconstruct the secret, for scalars, arrays (incl. bits and 128-bit) and nested containers
 fn share_roundtrip(seed: u64) -> serde_json::Value {
     use ciphercore_base::random::PRNG;
@@ -851,6 +924,8 @@ fn main() {
         Some("arith_kernels") => arith_kernels(seed),
         Some("cmp_small_widths") => cmp_small_widths(seed),
         Some("share_roundtrip") => share_roundtrip(seed),
+        Some("json_roundtrip") => json_roundtrip(seed),
+        Some("protocol_knowledge") => protocol_knowledge(),
         Some("psi_knowledge") => psi_knowledge(),
         Some("private_permutation") => private_permutation(),
         Some("structural_wide") => structural_wide(seed),
